@@ -51,6 +51,38 @@ def _helper(job):
     return (n, s, int(got), O.gw_total(n, s))
 
 
+def _T(m, s):
+    """Optimal total forward steps for m steps with s free units (closed form); T(1, 0) = 1."""
+    if m == 1:
+        return 1
+    if s < 1:
+        return float("inf")
+    return O.gw_total(m, s)
+
+
+def _advance_scan(job):
+    """Dense, cheap search for sub-problems (n, s, trajectory) whose step size is not locally
+    optimal: d = n_advance(n, s) must satisfy d + T(n-d, s-1) + T(d, s) == T(n, s). A step-size
+    rule's defects are sparse in (n, s); every candidate is then CONFIRMED by running the stream."""
+    lo, hi, S = job
+    from .. import lib
+    na = lib.cs_multistage.n_advance
+    out = []
+    cnt = 0
+    for n in range(lo, hi + 1):
+        for sx in range(1, min(S, n - 1) + 1):
+            for tr in ("maximum", "revolve"):
+                cnt += 1
+                try:
+                    d = int(lib.quiet(na, n, sx, trajectory=tr))
+                except Exception:
+                    out.append((n, sx, tr))
+                    continue
+                if not (1 <= d <= n - 1) or d + _T(n - d, sx - 1) + _T(d, sx) != _T(n, sx):
+                    out.append((n, sx, tr))
+    return cnt, out
+
+
 PROBE_N = (257, 258, 259, 300, 301)
 PROBE_S = (1, 4, 43, 44, 255, 256, 257, 260, 299, 300)
 
@@ -167,6 +199,13 @@ def run(prop, args):
     # (2) library streams
     probe = R.pristine_start("vlib.props.c05.seq_probe", {"pairs": probe_pairs()})
     box = list(_box(tier))
+    NA, SA = (1600, 16) if tier == "quick" else (6000, 40)
+    scan = R.pmap(_advance_scan, [(lo, min(lo + 49, NA), SA) for lo in range(2, NA + 1, 50)], chunksize=1)
+    cands = sorted(set(c for _, part in scan for c in part))
+    rep.extra["step_size_scan"] = {"sub_problems": sum(c for c, _ in scan), "n_max": NA, "s_max": SA, "candidates_confirmed_by_stream": len(cands)}
+    for (n, sx, tr) in cands[:300]:
+        box.append({"cls": "Multistage", "n": n, "ram": 0, "disk": sx, "traj": tr, "passes": 1})
+        box.append({"cls": "Multistage", "n": n, "ram": sx, "disk": 0, "traj": tr, "passes": 1})
     res = R.pmap(_case, box)
     count, shards = (90, 16) if tier == "quick" else (1500, 16)
     gen = [x for part in R.pmap(_gen, [(tier, args.seed, k, count) for k in range(shards)], chunksize=1) for x in part]
